@@ -180,3 +180,11 @@ Qed.
 Lemma first_some_map {A B C} (f : B -> option C) (g : A -> B) l :
   first_some f (map g l) = first_some (fun x => f (g x)) l.
 Proof. induction l as [|x l IH]; cbn; [reflexivity|]. rewrite IH. reflexivity. Qed.
+
+Lemma NoDup_app_snoc {A} (l : list A) x : NoDup l -> ~ In x l -> NoDup (l ++ [x]).
+Proof.
+  induction l as [|y l IH]; intros Hn Hx; cbn; [constructor; [intros []|constructor]|].
+  apply NoDup_cons_iff in Hn as [Hy Hn]. constructor.
+  - intros Hin. apply in_app_or in Hin as [Hin|[->|[]]]; [contradiction|]. apply Hx. left; reflexivity.
+  - apply IH; [exact Hn|]. intros Hin. apply Hx. right; exact Hin.
+Qed.
